@@ -513,8 +513,28 @@ func genWalkers(repo string) (string, error) {
 			if _, ok := n.(*ast.ForStmt); ok {
 				nFor++
 			}
-			if _, ok := n.(*ast.FuncLit); ok {
-				nFor += 100
+			if fl, ok := n.(*ast.FuncLit); ok {
+				// a closure that touches the token stream (a reader call, Token()) hides control flow; one that does
+				// not (a deferred clean-up) is of no concern
+				touches := false
+				ast.Inspect(fl.Body, func(m ast.Node) bool {
+					if ce, ok := m.(*ast.CallExpr); ok {
+						if se, ok := ce.Fun.(*ast.SelectorExpr); ok && (c.readers[se.Sel.Name] || se.Sel.Name == "Token") {
+							touches = true
+						}
+						if id, ok := ce.Fun.(*ast.Ident); ok && c.readers[id.Name] {
+							touches = true
+						}
+					}
+					if _, ok := m.(*ast.ForStmt); ok {
+						touches = true
+					}
+					return true
+				})
+				if touches {
+					nFor += 100
+				}
+				return false
 			}
 			return true
 		})
@@ -612,6 +632,20 @@ func genWalkers(repo string) (string, error) {
 			return ok && ids.Tok == tok && exprStringDeep(ids.X) == depthVar
 		}
 		body := loop.Body.List
+		// statements before the Token call that do not touch the token stream (remembering the input offset)
+		for len(body) > 0 {
+			as0, ok := body[0].(*ast.AssignStmt)
+			if !ok || len(as0.Rhs) != 1 {
+				break
+			}
+			if ce, ok := as0.Rhs[0].(*ast.CallExpr); ok && strings.HasSuffix(exprStringDeep(ce.Fun), ".Token") {
+				break
+			}
+			if h, err := c.handlerOf([]ast.Stmt{as0}, where); err != nil || h.kind != "none" {
+				break
+			}
+			body = body[1:]
+		}
 		if len(body) < 3 {
 			return "", fmt.Errorf("%s: token loop too short", where)
 		}
